@@ -100,7 +100,12 @@ func (t *vTransport) decode(data []byte) *protocol.Reply {
 	if t.proto == ProtocolTypeJSON {
 		dec = protocol.NewJSONReplyDecoder(data)
 	} else {
-		dec = protocol.NewProtobufReplyDecoder(data)
+		// transports receive bare protobuf replies (length prefixes are added by the handlers)
+		var r protocol.Reply
+		if err := r.UnmarshalVT(data); err != nil {
+			panic(fmt.Sprintf("verif transport: cannot decode protobuf reply: %v", err))
+		}
+		return &r
 	}
 	r, err := dec.Decode()
 	if err != nil && err != io.EOF {
